@@ -1,7 +1,6 @@
 #!/usr/bin/env python3
 """Regenerate gtverif/floors.json from the instance counts decided on the CURRENT tree (run only on a tree that was
-triaged by hand).  Tolerant floors: 1 for a singleton, count-1 below five, 70 % otherwise; 50 % for the closure-wide
-rules whose instance count follows the size of the call-graph closure (R-SORT, R-INJ.*)."""
+triaged by hand).  Tolerant floors: half of the count decided on the triaged tree, at least 1."""
 import json
 import math
 import os
@@ -13,28 +12,37 @@ from gtverif.__main__ import run_property  # noqa: E402
 from gtverif.report import HOLDS, VIOLATES  # noqa: E402
 
 out = {}
+ALL_COUNTS = {}
 for p in sorted(props.REGISTRY):
     rep = run_property(p)
     counts = {}
     for i in rep.instances:
         if i.verdict in (HOLDS, VIOLATES):
             counts[i.rule] = counts.get(i.rule, 0) + 1
+    ALL_COUNTS[p] = counts
     fl = {}
     for r, c in sorted(counts.items()):
         # pattern rules: an instance exists only where the pattern occurs (a scan loop with a return, a memo, an index()
         # call ...); the pattern may legitimately disappear, so these rules carry no floor
         if r in ('R-WORK.W7', 'R-WORK.W6', 'R-INJ.index', 'R-INJ.memo', 'R-INJ.key', 'R-INJ.word'):
             continue
-        if r.startswith(('R-SORT', 'R-INJ')):
-            f = max(1, math.floor(0.5 * c))
-        elif c == 1:
-            f = 1
-        elif c < 5:
-            f = c - 1
-        else:
-            f = math.ceil(0.7 * c)
+        # half of what was confirmed on the triaged tree: instances are counted per occurrence (per read of G.R, per
+        # call site ...), and behaviour-preserving refactorings (a local alias, a helper) were seen to remove up to
+        # half of the occurrences of a rule (round s); the floor is there to catch a rule going vacuous, not to pin
+        # the number of occurrences
+        f = max(1, math.floor(0.5 * c))
         fl[r] = f
     out[p] = fl
 path = os.path.join(os.path.dirname(os.path.abspath(__file__)), '..', 'gtverif', 'floors.json')
+# a regenerated floor must never hide a rule that silently stopped deciding: compare with the file being replaced
+try:
+    old = json.load(open(path))
+except (OSError, ValueError):
+    old = {}
+for p in sorted(old):
+    for r, f0 in sorted(old[p].items()):
+        c = ALL_COUNTS.get(p, {}).get(r, 0)
+        if c < f0:
+            print('WARNING: {} {} decides {} instance(s) now, the previous floor was {} -- check before committing'.format(p, r, c, f0))
 json.dump(out, open(path, 'w'), indent=1, sort_keys=True)
 print('rules with a floor:', sum(len(v) for v in out.values()))
